@@ -48,6 +48,17 @@ LIB_PROBES = [
     ([L("usesown", "(import (scheme base)) (export r) (begin (define (own) 3) (define r 0) (set! r (own)))")], True, "(import (usesown))\nr", ["OK -", "OK I 3"]),
     ([L("tools", "(import (scheme base)) (export tool) (begin (define (tool) 9))"), L("callsimp", "(import (scheme base)) (export r) (begin (define r 1) (tool))")], True,
      "(import (tools))\n(import (callsimp))\n(tool)", ["OK -", "ERR UnboundedSymbol", "OK I 9"]),
+    # a body-less facade library: imported bindings re-exported, also under new names
+    ([L("impl", "(import (scheme base)) (export impl-perimeter v1 v2) (begin (define (impl-perimeter w h) (* 2 (+ w h))) (define v1 1) (define v2 2))"),
+      L("facade", "(import (impl)) (export (rename impl-perimeter perimeter) (rename v2 v1))")], True,
+     "(import (facade))\n(perimeter 1 2)\nv1", ["OK -", "OK I 6", "OK I 2"]),
+    # a library loaded as a LATER import set of one declaration sees nothing of what the earlier sets brought to the importer
+    ([L("secrets", "(export key) (begin (define key 42))"), L("client", "(import (scheme base)) (export peek) (begin (define (peek) key))")], True,
+     "(import (secrets) (client))\n(peek)", ["OK -", "ERR UnboundedSymbol"]),
+    ([L("secrets", "(export key) (begin (define key 42))"), L("client2", "(import (scheme base)) (export got) (begin (define got key))")], True,
+     "(import (secrets) (client2))\n(+ 1 2)", ["ERR UnboundedSymbol", "OK I 3"]),
+    # imports are bound before the body runs
+    ([L("early", "(import (scheme base)) (export start) (begin (define start (+ 40 1)))")], True, "(import (early))\nstart", ["OK -", "OK I 41"]),
     # a library that fails while loading leaves the interpreter untouched
     ([L("bad", "(import (scheme base)) (export x) (begin (define secret 42) (define x (car 5)))")], True, "(import (bad))\n(+ 1 2)\nsecret", ["ERR TypeMisMatch", "OK I 3", "ERR UnboundedSymbol"]),
 ]
@@ -109,6 +120,15 @@ def spec_library_definition(chk, ND):
         ex.log("failed", error=e)
         yield Err(e)
 
+    @skel.stub(ex, r"::eval_import_set$|::get_library$", "an import set / a library reached directly from eval_library_definition -> arbitrary bindings, logged as a foreign lookup (the definition must go through eval_import and its own frame)")
+    def direct_import(ex, callee, args, rt):
+        ex.log("foreign_lookup", callee=callee)
+        if callee.endswith("get_library"):
+            yield Ok(Lazy("interpreter::library::Library<R>", "foreign_library"))
+        else:
+            from ..core import StrVal
+            yield Ok(SeqObj("foreign_bindings", "(String, Value)", [Cell(Tup([StrVal("imported_name"), Lazy("values::Value<R>", "imported_value")])), Cell(None)], 1, 2))
+
     @skel.stub(ex, r"::eval_expression_or_definition$", "eval_expression_or_definition -> any Ok or any Err; logged with the environment")
     def eval_stmt(ex, callee, args, rt):
         e = skel.err_value("from a body statement")
@@ -153,6 +173,8 @@ def spec_library_definition(chk, ND):
             post.append(z3.BoolVal(fresh))
         # the interpreter's own environment field is untouched
         post.append(z3.BoolVal(it.fields[0] is importer_env))
+        # exports come out of the library's own frame, nowhere else
+        post.append(z3.BoolVal(not [e for e in events if e["kind"] == "foreign_lookup"]))
         # (b) declarations in order; each import declaration once, each body statement once, in order.
         # The shape of the definition (declaration count, kinds, statement / spec counts, spec kinds) is an input: whatever
         # part of it the path left open is enumerated, the obligation is stated for each completion
